@@ -34,6 +34,7 @@ import (
 	"errors"
 	"fmt"
 	"os"
+	"path/filepath"
 	"runtime/debug"
 	"runtime/pprof"
 	"sort"
@@ -95,6 +96,13 @@ var sqlText = [nOps]string{
 
 var opName = [nOps]string{"BEGIN", "INSERT a", "INSERT t(1,3)", "INSERT t(2,2)", "UPSERT t(1,7)", "UPDATE t", "DELETE t[1]", "CREATE u",
 	"SAVEPOINT s1", "SAVEPOINT s2", "ROLLBACK TO s1", "ROLLBACK TO s2", "RELEASE s1", "COMMIT", "ROLLBACK", "outside:UPSERT t(1,99)"}
+
+var allOps = func() (o []int) {
+	for i := 0; i < nOps; i++ {
+		o = append(o, i)
+	}
+	return
+}()
 
 var setup = []string{
 	"CREATE TABLE a(id INTEGER AUTO_INCREMENT, v INTEGER, PRIMARY KEY id)",
@@ -573,12 +581,52 @@ func (cs *candidates) settle(kind string, front string, mode int, path []int, k 
 		at, activated := cs.m[best].firstAt[q]
 		if best&q != 0 && activated && !cs.reported[q] {
 			cs.reported[q] = true
-			c.Violate(lib.Violation{Sig: fmt.Sprintf("%s program=%s", quirkSig[q], prog(path[:at+1])),
+			reportKnownDefect(q, lib.Violation{Sig: fmt.Sprintf("%s program=%s", quirkSig[q], prog(path[:at+1])),
 				Detail: fmt.Sprintf("observed in %s (mode %s, front %s) after statement %d: the run equals the reference variant with defect(s) %s and differs from the specification: %s",
-					prog(path[:k+1]), modeName[mode], front, k+1, quirkNames(best), cs.why[0]), Replay: replay{front, mode, path[:k+1]}})
+					prog(path[:k+1]), modeName[mode], front, k+1, quirkNames(best), cs.why[0]), Replay: replay{front, mode, path[:k+1]}}, at+1)
 		}
 	}
 	return true
+}
+
+// A known defect shows in thousands of programs. They are collected and, at the end of every level of the
+// search (flushKnownDefects), only the witnesses of minimal length per defect become violations (all of that
+// length, in sorted order => deterministic); the longer ones are counted.
+type pendingDefect struct {
+	q, n int
+	v    lib.Violation
+}
+
+var (
+	pendMu  sync.Mutex
+	pending []pendingDefect
+	minLen  = map[int]int{}
+)
+
+func reportKnownDefect(q int, v lib.Violation, n int) {
+	pendMu.Lock()
+	pending = append(pending, pendingDefect{q, n, v})
+	pendMu.Unlock()
+}
+
+func flushKnownDefects() {
+	pendMu.Lock()
+	defer pendMu.Unlock()
+	sort.Slice(pending, func(i, j int) bool {
+		if pending[i].n != pending[j].n {
+			return pending[i].n < pending[j].n
+		}
+		return pending[i].v.Sig < pending[j].v.Sig
+	})
+	for _, p := range pending {
+		if m, ok := minLen[p.q]; !ok || p.n <= m {
+			minLen[p.q] = p.n
+			c.Violate(p.v)
+		} else {
+			c.Add("longer_programs_showing_"+quirkSig[p.q], 1)
+		}
+	}
+	pending = nil
 }
 
 func popcount(q int) (n int) {
@@ -810,7 +858,7 @@ func note(op int, wasOpen, engErr bool, m *model) {
 
 func main() {
 	c = lib.New("C13", "model_checking", 100*time.Second, 25*time.Minute)
-	debug.SetGCPercent(400)
+	debug.SetGCPercent(50) // measured: fresh stores allocate large zeroed buffers, a small heap avoids page faults
 	if g := os.Getenv("C13_GC"); g != "" {
 		n, _ := strconv.Atoi(g)
 		debug.SetGCPercent(n)
@@ -828,16 +876,23 @@ func main() {
 	c.Assume("the value of a generated key is not predicted (not defined by the property): the reported key is applied to the reference and must be fresh and present afterwards")
 	c.Assume("savepoint existence after ROLLBACK TO / RELEASE of an EARLIER or the SAME savepoint, and of a re-declared name after RELEASE, is not defined by the property: such uses are executed, the outside view is compared, the program is not extended")
 	if c.ReplayPath != "" {
+		c.ReplayPath, _ = filepath.Abs(c.ReplayPath)
+	}
+	cwd := lib.Scratch("c13-cwd") // the pgsql server's embedded client writes .state-* / .identity-* files into the cwd
+	os.Chdir(cwd)
+	defer os.RemoveAll(cwd)
+	if c.ReplayPath != "" {
 		var r replay
 		c.LoadReplay(&r)
 		runFront(r)
+		flushKnownDefects()
 		c.AddEvals(1)
 		c.AddStates(1, 1)
 		c.Finish("replay of one recorded program", false)
 	}
-	fullDepth, extra := 4, []int{modeLast}
+	fullDepth, extra, lastOps := 4, []int{modeLast}, []int{opCommit, opRollback}
 	if c.Thorough() {
-		fullDepth, extra = 5, []int{modeLast, modeAll}
+		fullDepth, extra, lastOps = 5, []int{modeLast, modeAll}, allOps
 	}
 	if maxd > 0 {
 		fullDepth = maxd
@@ -847,8 +902,18 @@ func main() {
 			os.RemoveAll(templateDir)
 		}
 	}()
-	phaseEngine(fullDepth, extra)
-	phaseFrontends()
+	frontLen := 3
+	if c.Thorough() {
+		frontLen = 4
+	}
+	// the wire front-ends run their programs sequentially on their own server, next to the engine phase
+	var wg sync.WaitGroup
+	wg.Add(1)
+	ts := startServer()
+	go func() { defer wg.Done(); phaseFrontends(ts, frontLen) }()
+	phaseEngine(fullDepth, extra, lastOps)
+	wg.Wait()
+	flushKnownDefects()
 	// (a concurrent-sessions phase under the controlled scheduler goes here)
 	c.Finish(fmt.Sprintf("every program over the %d-statement alphabet up to engine_depth_completed statements through sql.Engine.Exec in modes all/last (iterative deepening), against the reference interpreter: in-tx view, outside view, affected rows, generated keys after every statement; Cancel of an abandoned tx; close+reopen. distinct = (mode, program) pairs run to their end", nOps), !c.Expired())
 }
@@ -864,20 +929,22 @@ func runFront(r replay) bool {
 // phaseEngine: breadth-first over program length (= iterative deepening without re-running shorter programs):
 // level d runs every one-statement extension of the programs of level d-1 that were not stopped. Lengths up
 // to fullDepth: every program, modes all + last. Length fullDepth+1: only programs whose first statement is
-// BEGIN (one transaction from the start), in the given modes.
-func phaseEngine(fullDepth int, extraModes []int) {
+// BEGIN (one transaction from the start), extended by lastOps only (quick: COMMIT / ROLLBACK, i.e. every
+// transaction body of fullDepth-1 statements is also committed and rolled back; thorough: every statement).
+func phaseEngine(fullDepth int, extraModes []int, lastOps []int) {
 	c.Set("alphabet", strings.Join(opName[:], ", "))
 	c.Set("engine_full_depth_target", fullDepth)
 	c.Set("engine_begin_first_depth_target", fullDepth+1)
 	frontier := [][][]int{{{}}, {{}}} // per mode
-	level := func(d, mode int, fr [][]int, what string) bool {
+	level := func(d, mode int, fr [][]int, ops []int, what string) bool {
+		nOps := len(ops)
 		next := make([][]int, len(fr)*nOps)
 		var done, ran atomic.Int64
 		c.ParallelFor(len(fr)*nOps, func(i int) {
 			if c.Expired() {
 				return
 			}
-			path := append(append(make([]int, 0, d), fr[i/nOps]...), i%nOps)
+			path := append(append(make([]int, 0, d), fr[i/nOps]...), ops[i%nOps])
 			var stop, na bool
 			if p := lib.Catch(func() { stop, na = runEngine2(mode, path) }); p != "" {
 				c.Violate(lib.Violation{Sig: fmt.Sprintf("panic program=%s mode=%s", prog(path), modeName[mode]), Detail: p, Replay: replay{"engine", mode, path}})
@@ -901,6 +968,7 @@ func phaseEngine(fullDepth int, extraModes []int) {
 			c.CapHit(fmt.Sprintf("engine front: time budget reached at length %d (%s) mode %s after %d of %d candidate programs", d, what, modeName[mode], done.Load(), len(fr)*nOps))
 			return false
 		}
+		flushKnownDefects()
 		c.Set(fmt.Sprintf("engine_programs_length_%d_%s_mode_%s", d, what, modeName[mode]), ran.Load())
 		frontier[mode] = frontier[mode][:0]
 		for _, p := range next {
@@ -912,7 +980,7 @@ func phaseEngine(fullDepth int, extraModes []int) {
 	}
 	for d := 1; d <= fullDepth; d++ {
 		for mode := modeAll; mode <= modeLast; mode++ {
-			if !level(d, mode, frontier[mode], "all") {
+			if !level(d, mode, frontier[mode], allOps, "all") {
 				return
 			}
 		}
@@ -925,7 +993,7 @@ func phaseEngine(fullDepth int, extraModes []int) {
 				fr = append(fr, p)
 			}
 		}
-		if !level(fullDepth+1, mode, fr, "begin-first") {
+		if !level(fullDepth+1, mode, fr, lastOps, "begin-first") {
 			return
 		}
 		c.Set("engine_begin_first_depth_completed_mode_"+modeName[mode], fullDepth+1)
